@@ -166,8 +166,10 @@ class Serializable(object):  # pylint: disable=too-few-public-methods
             else:
                 post_text_encoder = cls.post_text_encoder
                 cls.post_text_encoder = SerializableTextEncoder()
-                _, human_readable_name = cls._markdown_result(name)
-                cls.post_text_encoder = post_text_encoder
+                try:
+                    _, human_readable_name = cls._markdown_result(name)
+                finally:
+                    cls.post_text_encoder = post_text_encoder
 
             name_dict[name] = human_readable_name
 
